@@ -115,8 +115,31 @@ func CleanupWorkRoot() {
 	}
 }
 
+// curExec: what is being executed right now (for the stall verdict, which has to be written from outside the execution).
+var curExec struct {
+	sc     *Scenario
+	prefix []int
+}
+
+// SpinViolations is the verdict for an execution in which a thread of the code under test spins without ever
+// reaching a synchronisation point: it never lets go of what it holds, so no later call returns (C05), nothing
+// is delivered any more (C01) and nothing after an overflow either (C10) - the same attribution as "livelock".
+func SpinViolations(where string) []Violation {
+	if curExec.sc == nil {
+		return nil
+	}
+	var out []Violation
+	for _, prop := range []string{"C05", "C01", "C10"} {
+		out = append(out, Violation{Property: prop, Scenario: curExec.sc.Name, Params: curExec.sc.Params, Choices: append([]int{}, curExec.prefix...),
+			Signature: "a thread of the code under test spins without ever reaching a synchronisation point: " + where,
+			Detail:    fmt.Sprintf("no scheduling point was reached for %v while a goroutine was busy in %s; whatever it holds is never released", vsched.StallTimeout, where)})
+	}
+	return out
+}
+
 // RunOnce executes the scenario once under the given choice prefix.
 func RunOnce(sc *Scenario, prefix []int, keep bool, onStep func(*vsched.Sched, *X)) *ExecResult {
+	curExec.sc, curExec.prefix = sc, prefix
 	if workRoot == "" {
 		InitWorkRoot()
 	}
